@@ -777,4 +777,22 @@ theorem mem_intercalate {sep x : Nat} {ls : List (List Nat)} (h : x ∈ [sep].in
         · exact Or.inl h
         · exact Or.inr ⟨l, by simp [hl], hx⟩
 
+/-! ### non-ASCII characters separate the decoded runs -/
+
+theorem unqGo_split (a b : Text) (c : Nat) (hc : ¬ c < 128) :
+    ∀ acc, unqGo (a ++ c :: b) acc = unqGo a acc ++ c :: unqGo b [] := by
+  induction a with
+  | nil => intro acc; simp [unqGo, hc]
+  | cons x a ih =>
+    intro acc
+    simp only [List.cons_append, unqGo]
+    split
+    · exact ih _
+    · rw [ih []]; simp
+
+theorem unquote_split (a b : Text) (c : Nat) (hc : 128 ≤ c) :
+    unquote (a ++ c :: b) = unquote a ++ c :: unquote b := by
+  unfold unquote
+  exact unqGo_split a b c (by omega) []
+
 end C06
